@@ -365,3 +365,550 @@ Example weak_hash_is_fooled_after_error :
   | _ => []
   end = [([], RErr); ([9; 9], ROk); ([], REOF); ([], REOF)].
 Proof. vm_compute. reflexivity. Qed.
+
+(* ========================================================================
+   A source that FAILS (an I/O error other than io.EOF) after delivering a
+   prefix of the stream.
+
+   Model/Mice.v: [new_decoder_f], [read_next_record_f], [read_f],
+   [read_trace_f]: binary.Read / io.ReadFull return the error instead of
+   io.EOF / io.ErrUnexpectedEOF, so NewDecoder fails on a short header and
+   readNextRecord returns the error ("if err != nil { return err }") instead
+   of treating the bytes it got as the final record.
+
+   Proofs/MiceSourceFault.v.  Vocabulary defined there:
+     starved s  :=  d_out s = [] /\ d_next s <> None /\ lenN (d_r s) < d_rs s + 32
+     drained s  :=  s with d_r := []
+     read_trace_p        = read_trace_f with [read] in place of [read_f]
+     cyc_sizes fuel cur all = the sizes such a history passes ([cur], then
+                           [all] again and again; a refill costs one fuel)
+     read_all_calls_f    = read_all_calls with [read_f] (continues past errors)
+   ======================================================================== *)
+From WP Require Import Proofs.TotalityMice Proofs.MiceSourceFault.
+
+(* ---- 1. read_f is a conservative extension of read ----------------------- *)
+Theorem C15_read_next_record_f_agrees :
+  forall (H : bytes -> bytes) (s : dec) (proof : bytes),
+    d_rs s + 32 <= lenN (d_r s) ->
+    read_next_record_f H s proof = read_next_record H s proof.
+Proof. exact rnr_f_agrees. Qed.
+Print Assumptions C15_read_next_record_f_agrees.
+
+(* output pending, or decoder finished, or a full record + proof available *)
+Theorem C15_read_f_agrees :
+  forall (H : bytes -> bytes) (s : dec) (k : N),
+    d_out s <> [] \/ d_next s = None \/ d_rs s + 32 <= lenN (d_r s) ->
+    read_f H s k = read H s k.
+Proof. exact read_f_agrees. Qed.
+Print Assumptions C15_read_f_agrees.
+
+(* in the one remaining case the call fails, delivers nothing and only
+   consumes the input that was left *)
+Theorem C15_read_f_starved :
+  forall (H : bytes -> bytes) (s : dec) (k : N),
+    d_out s = [] /\ d_next s <> None /\ lenN (d_r s) < d_rs s + 32 ->
+    read_f H s k = ({| d_enc := d_enc s; d_rs := d_rs s; d_r := [];
+                       d_next := d_next s; d_out := d_out s |}, [], RErr).
+Proof. exact read_f_starved. Qed.
+Print Assumptions C15_read_f_starved.
+
+Theorem C15_read_f_cases_exhaustive :
+  forall (s : dec),
+    (d_out s = [] /\ d_next s <> None /\ lenN (d_r s) < d_rs s + 32) \/
+    (d_out s <> [] \/ d_next s = None \/ d_rs s + 32 <= lenN (d_r s)).
+Proof. exact starved_dec. Qed.
+Print Assumptions C15_read_f_cases_exhaustive.
+
+(* ---- 2. never a clean end ------------------------------------------------ *)
+Theorem C15_read_f_never_eof :
+  forall (H : bytes -> bytes) (s : dec) (k : N) (s' : dec) (o : bytes) (st : rstat),
+    d_next s <> None -> read_f H s k = (s', o, st) ->
+    st <> REOF /\ d_next s' <> None.
+Proof. exact read_f_never_eof. Qed.
+Print Assumptions C15_read_f_never_eof.
+
+Theorem C15_read_trace_f_never_eof :
+  forall (H : bytes -> bytes) (fuel : nat) (s : dec) (cur all : list N)
+         (acc out : bytes) (st : rstat),
+    d_next s <> None -> read_trace_f H fuel s cur all acc = (out, st) -> st <> REOF.
+Proof. exact read_trace_f_never_eof. Qed.
+Print Assumptions C15_read_trace_f_never_eof.
+
+(* NewDecoder: fewer than 8 bytes before the failure is an error, for EVERY
+   digest string (a digest that does not parse is an error anyway) ... *)
+Theorem C15_new_decoder_f_short_header :
+  forall (H : bytes -> bytes) (d : draft) (stream digest : bytes) (maxrs : N),
+    lenN stream < 8 -> new_decoder_f H d stream digest maxrs = Err.
+Proof. exact new_decoder_f_short. Qed.
+Print Assumptions C15_new_decoder_f_short_header.
+
+Theorem C15_new_decoder_f_bad_digest :
+  forall (H : bytes -> bytes) (d : draft) (stream digest : bytes) (maxrs : N),
+    parse_digest_header d digest = Err -> new_decoder_f H d stream digest maxrs = Err.
+Proof. exact new_decoder_f_bad_digest. Qed.
+Print Assumptions C15_new_decoder_f_bad_digest.
+
+(* ... with 8 bytes or more it is NewDecoder on a clean source ... *)
+Theorem C15_new_decoder_f_long :
+  forall (H : bytes -> bytes) (d : draft) (stream digest : bytes) (maxrs : N),
+    8 <= lenN stream ->
+    new_decoder_f H d stream digest maxrs = new_decoder H d stream digest maxrs.
+Proof. exact new_decoder_f_long. Qed.
+Print Assumptions C15_new_decoder_f_long.
+
+(* ... so a decoder it returns is one [new_decoder] returns, and it still
+   expects a proof (the draft-03 "empty stream = empty payload" state, the only
+   one with d_next = None, is never returned) *)
+Theorem C15_new_decoder_f_ok :
+  forall (H : bytes -> bytes) (d : draft) (stream digest : bytes) (maxrs : N) (s : dec),
+    new_decoder_f H d stream digest maxrs = Ok s ->
+    new_decoder H d stream digest maxrs = Ok s /\
+    d_next s <> None /\ d_out s = [] /\ 8 <= lenN stream /\ 1 <= d_rs s.
+Proof. exact new_decoder_f_ok. Qed.
+Print Assumptions C15_new_decoder_f_ok.
+
+Theorem C15_new_decoder_f_err_or_ok :
+  forall (H : bytes -> bytes) (d : draft) (stream digest : bytes) (maxrs : N),
+    new_decoder_f H d stream digest maxrs = Err \/
+    exists s, new_decoder_f H d stream digest maxrs = Ok s.
+Proof. exact new_decoder_f_cases. Qed.
+Print Assumptions C15_new_decoder_f_err_or_ok.
+
+Theorem C15_decoder_f_never_eof :
+  forall (H : bytes -> bytes) (d : draft) (stream digest : bytes) (maxrs : N) (s0 : dec)
+         (fuel : nat) (cur all : list N) (acc out : bytes) (st : rstat),
+    new_decoder_f H d stream digest maxrs = Ok s0 ->
+    read_trace_f H fuel s0 cur all acc = (out, st) -> st <> REOF.
+Proof. exact decoder_f_never_eof. Qed.
+Print Assumptions C15_decoder_f_never_eof.
+
+(* callers that keep calling after the error never see EOF either *)
+Theorem C15_calls_f_never_eof :
+  forall (H : bytes -> bytes) (sizes : list N) (s : dec),
+    d_next s <> None -> Forall (fun c => snd c <> REOF) (read_all_calls_f H s sizes).
+Proof. exact calls_f_never_eof. Qed.
+Print Assumptions C15_calls_f_never_eof.
+
+(* ---- 3. never more than the clean-end decoder ----------------------------- *)
+(* same state, same fuel, same sizes: what the failing source releases is a
+   prefix of what the clean end releases, and unless the failing-source history
+   ends in an error the two coincide *)
+Theorem C15_read_trace_f_prefix :
+  forall (H : bytes -> bytes) (fuel : nat) (s : dec) (cur all : list N) (acc : bytes)
+         (outf : bytes) (stf : rstat) (outp : bytes) (stp : rstat),
+    read_trace_f H fuel s cur all acc = (outf, stf) ->
+    read_trace_p H fuel s cur all acc = (outp, stp) ->
+    (exists rest, outp = outf ++ rest) /\
+    (stf <> RErr -> outp = outf /\ stp = stf).
+Proof. exact read_trace_f_prefix. Qed.
+Print Assumptions C15_read_trace_f_prefix.
+
+(* [read_trace_p] is the model's [read_trace] on the unrolled sizes, and every
+   size list is the unrolling of some (fuel, cur, all) *)
+Theorem C15_read_trace_p_is_read_trace :
+  forall (H : bytes -> bytes) (fuel : nat) (s : dec) (cur all : list N) (acc : bytes),
+    read_trace_p H fuel s cur all acc = read_trace H s (cyc_sizes fuel cur all) acc.
+Proof. exact read_trace_p_sizes. Qed.
+Print Assumptions C15_read_trace_p_is_read_trace.
+
+Theorem C15_cyc_sizes_any :
+  forall (sizes : list N), cyc_sizes (List.length sizes) sizes [] = sizes.
+Proof. exact cyc_sizes_any. Qed.
+Print Assumptions C15_cyc_sizes_any.
+
+Theorem C15_read_trace_f_prefix_read_trace :
+  forall (H : bytes -> bytes) (fuel : nat) (s : dec) (cur all : list N) (acc : bytes)
+         (outf : bytes) (stf : rstat) (outp : bytes) (stp : rstat),
+    read_trace_f H fuel s cur all acc = (outf, stf) ->
+    read_trace H s (cyc_sizes fuel cur all) acc = (outp, stp) ->
+    (exists rest, outp = outf ++ rest) /\
+    (stf <> RErr -> outp = outf /\ stp = stf).
+Proof. exact read_trace_f_prefix_read_trace. Qed.
+Print Assumptions C15_read_trace_f_prefix_read_trace.
+
+(* MAIN: any delivered prefix s of any stream followed by a source failure,
+   any header string, any limit, any history of Read calls.  Same notion of
+   commitment as C15_decoder_releases_only_committed; and never a clean end. *)
+Theorem C15_decoder_f_releases_only_committed :
+  forall (H : bytes -> bytes) (d : draft) (s dg : bytes) (maxrs : N)
+         (fuel : nat) (cur all : list N)
+         (recs : list bytes) (top : bytes) (s0 : dec) (out : bytes) (st : rstat),
+    parse_digest_header d dg = Ok top -> Commits H top recs ->
+    new_decoder_f H d s dg maxrs = Ok s0 ->
+    read_trace_f H fuel s0 cur all [] = (out, st) ->
+    st <> REOF /\
+    ((exists rest, List.concat recs = out ++ rest) \/ Collision H).
+Proof. exact decoder_f_releases_only_committed. Qed.
+Print Assumptions C15_decoder_f_releases_only_committed.
+
+Theorem C15_decoder_f_authentic :
+  forall (H : bytes -> bytes),
+    (forall x, List.length (H x) = 32%nat) -> (forall x, wfb (H x)) ->
+  forall (d : draft) (rs : N) (p s : bytes) (maxrs : N) (fuel : nat) (cur all : list N)
+         (s0 : dec) (out : bytes) (st : rstat),
+    1 <= rs ->
+    new_decoder_f H d s (digest_header H d rs p) maxrs = Ok s0 ->
+    read_trace_f H fuel s0 cur all [] = (out, st) ->
+    st <> REOF /\ ((exists rest, p = out ++ rest) \/ Collision H).
+Proof. exact decoder_f_authentic. Qed.
+Print Assumptions C15_decoder_f_authentic.
+
+(* callers that keep calling Read after the error: once starved, every later
+   call fails and hands out nothing; all bytes ever delivered are a prefix of
+   what the same calls deliver with a clean end, hence committed *)
+Theorem C15_starved_calls_f :
+  forall (H : bytes -> bytes) (sizes : list N) (s : dec),
+    starved s -> read_all_calls_f H s sizes = map (fun _ => ([], RErr)) sizes.
+Proof. exact starved_calls_f. Qed.
+Print Assumptions C15_starved_calls_f.
+
+Theorem C15_calls_f_prefix :
+  forall (H : bytes -> bytes) (sizes : list N) (s : dec),
+    exists rest, List.concat (map fst (read_all_calls H s sizes))
+                 = List.concat (map fst (read_all_calls_f H s sizes)) ++ rest.
+Proof. exact calls_f_prefix. Qed.
+Print Assumptions C15_calls_f_prefix.
+
+Theorem C15_calls_f_only_committed :
+  forall (H : bytes -> bytes) (d : draft) (s dg : bytes) (maxrs : N) (sizes : list N)
+         (recs : list bytes) (top : bytes) (s0 : dec),
+    parse_digest_header d dg = Ok top -> Commits H top recs ->
+    new_decoder_f H d s dg maxrs = Ok s0 ->
+    Forall (fun c => snd c <> REOF) (read_all_calls_f H s0 sizes) /\
+    ((exists rest, List.concat recs
+                   = List.concat (map fst (read_all_calls_f H s0 sizes)) ++ rest)
+     \/ Collision H).
+Proof. exact calls_f_only_committed. Qed.
+Print Assumptions C15_calls_f_only_committed.
+
+Theorem C15_calls_f_authentic :
+  forall (H : bytes -> bytes),
+    (forall x, List.length (H x) = 32%nat) -> (forall x, wfb (H x)) ->
+  forall (d : draft) (rs : N) (p s : bytes) (maxrs : N) (sizes : list N) (s0 : dec),
+    1 <= rs ->
+    new_decoder_f H d s (digest_header H d rs p) maxrs = Ok s0 ->
+    Forall (fun c => snd c <> REOF) (read_all_calls_f H s0 sizes) /\
+    ((exists rest, p = List.concat (map fst (read_all_calls_f H s0 sizes)) ++ rest)
+     \/ Collision H).
+Proof. exact calls_f_authentic. Qed.
+Print Assumptions C15_calls_f_authentic.
+
+Theorem C15_read_trace_f_is_calls_prefix :
+  forall (H : bytes -> bytes) (fuel : nat) (s : dec) (cur all : list N) (acc : bytes),
+    read_trace_f H fuel s cur all acc
+    = trace_of (read_all_calls_f H s (cyc_sizes fuel cur all)) acc.
+Proof. exact read_trace_f_calls. Qed.
+Print Assumptions C15_read_trace_f_is_calls_prefix.
+
+(* ---- 4. progress to an error ---------------------------------------------- *)
+(* measure s = |d_out s| + |d_r s| + [a proof is expected] (TotalityMice.v).
+   Every successful call into a non-empty buffer lowers it; refilling [cur]
+   from [all] costs one more unit of fuel per call, hence the factor 2. *)
+Theorem C15_read_trace_f_reaches_error :
+  forall (H : bytes -> bytes) (all : list N),
+    all <> [] -> Forall (fun k => 1 <= k) all ->
+    forall (fuel : nat) (s : dec) (cur : list N) (acc : bytes),
+      d_next s <> None -> Forall (fun k => 1 <= k) cur ->
+      2 * measure s <= N.of_nat fuel + (match cur with [] => 0 | _ => 1 end) ->
+      snd (read_trace_f H fuel s cur all acc) = RErr.
+Proof. exact read_trace_f_reaches_error. Qed.
+Print Assumptions C15_read_trace_f_reaches_error.
+
+(* no refill needed: as many units of fuel and as many sizes as the measure *)
+Theorem C15_read_trace_f_reaches_error_norefill :
+  forall (H : bytes -> bytes) (fuel : nat) (s : dec) (cur all : list N) (acc : bytes),
+    d_next s <> None -> Forall (fun k => 1 <= k) cur ->
+    measure s <= N.of_nat fuel -> measure s <= lenN cur ->
+    snd (read_trace_f H fuel s cur all acc) = RErr.
+Proof. exact read_trace_f_reaches_error_norefill. Qed.
+Print Assumptions C15_read_trace_f_reaches_error_norefill.
+
+Theorem C15_decoder_f_reaches_error :
+  forall (H : bytes -> bytes) (d : draft) (stream digest : bytes) (maxrs : N) (s0 : dec)
+         (fuel : nat) (cur all : list N) (acc : bytes),
+    new_decoder_f H d stream digest maxrs = Ok s0 ->
+    all <> [] -> Forall (fun k => 1 <= k) all -> Forall (fun k => 1 <= k) cur ->
+    2 * lenN stream <= N.of_nat fuel ->
+    snd (read_trace_f H fuel s0 cur all acc) = RErr.
+Proof. exact decoder_f_reaches_error. Qed.
+Print Assumptions C15_decoder_f_reaches_error.
+
+(* "fuel > measure" alone is not enough when [cur] has to be refilled:
+   measure 4, fuel 5 and 6 run out (ROk), fuel 7 = 2 * 4 - 1 reaches RErr *)
+Example C15_reaches_error_needs_double_fuel :
+  measure s_pending = 4 /\
+  read_trace_f (fun _ => []) 5 s_pending [1] [1] [] = ([1; 2; 3], ROk) /\
+  read_trace_f (fun _ => []) 6 s_pending [1] [1] [] = ([1; 2; 3], ROk) /\
+  read_trace_f (fun _ => []) 7 s_pending [1] [1] [] = ([1; 2; 3], RErr).
+Proof. exact reaches_error_needs_double_fuel. Qed.
+
+(* ---- concrete runs with SHA-256: msg2, record size 8, two records ---------
+   layout: [0,8) size | [8,16) r0 | [16,48) proof1 | [48,52) r1
+   the source delivers the first n bytes, then fails (run_f) / ends (run_p) *)
+Definition run_f (d : draft) (n fuel : nat) (sizes : list N) : option (bytes * rstat) :=
+  match new_decoder_f sha256 d (firstn n (strm2 d)) (hdr2 d) 16384 with
+  | Ok s0 => Some (read_trace_f sha256 fuel s0 sizes sizes [])
+  | _ => None
+  end.
+Definition run_p (d : draft) (n fuel : nat) (sizes : list N) : option (bytes * rstat) :=
+  match new_decoder sha256 d (firstn n (strm2 d)) (hdr2 d) 16384 with
+  | Ok s0 => Some (read_trace_p sha256 fuel s0 sizes sizes [])
+  | _ => None
+  end.
+
+Example source_fails_at_03 :
+  map (fun n => run_f D03 n 40 [5]) [0; 5; 7; 8; 20; 47; 48; 50; 51; 52]%nat
+  = [None; None; None; Some ([], RErr); Some ([], RErr); Some ([], RErr);
+     Some (firstn 8 msg2, RErr); Some (firstn 8 msg2, RErr); Some (firstn 8 msg2, RErr);
+     Some (firstn 8 msg2, RErr)].
+Proof. vm_compute. reflexivity. Qed.
+Example source_fails_at_02 :
+  map (fun n => run_f D02 n 40 [5]) [0; 5; 7; 8; 20; 47; 48; 50; 51; 52]%nat
+  = [None; None; None; Some ([], RErr); Some ([], RErr); Some ([], RErr);
+     Some (firstn 8 msg2, RErr); Some (firstn 8 msg2, RErr); Some (firstn 8 msg2, RErr);
+     Some (firstn 8 msg2, RErr)].
+Proof. vm_compute. reflexivity. Qed.
+(* the same prefixes followed by a clean end: the complete stream gives the
+   payload and EOF; the failing source never releases the final record (the
+   decoder cannot know the record is complete) and never reports EOF *)
+Example source_ends_at_03 :
+  map (fun n => run_p D03 n 40 [5]) [0; 5; 7; 8; 20; 47; 48; 50; 51; 52]%nat
+  = [None; None; None; Some ([], RErr); Some ([], RErr); Some ([], RErr);
+     Some (firstn 8 msg2, RErr); Some (firstn 8 msg2, RErr); Some (firstn 8 msg2, RErr);
+     Some (msg2, REOF)].
+Proof. vm_compute. reflexivity. Qed.
+(* a third record behind: failure inside / after it *)
+Example source_fails_three_records :
+  map (fun n => match new_decoder_f sha256 D03 (firstn n strm) hdr 16384 with
+                | Ok s0 => Some (read_trace_f sha256 300 s0 [7] [7] [])
+                | _ => None
+                end) [7; 8; 55; 56; 103; 104; 112; 113]%nat
+  = [None; Some ([], RErr); Some ([], RErr); Some (firstn 16 msg, RErr);
+     Some (firstn 16 msg, RErr); Some (firstn 32 msg, RErr); Some (firstn 32 msg, RErr);
+     Some (firstn 32 msg, RErr)].
+Proof. vm_compute. reflexivity. Qed.
+
+(* ---- the hypotheses of the theorems above are satisfiable ------------------ *)
+(* the decoder opened on the first n >= 8 bytes of the two-record stream *)
+Definition sf_state (n : nat) : dec :=
+  {| d_enc := D03; d_rs := 8; d_r := skipn 8 (firstn n (strm2 D03));
+     d_next := Some top2; d_out := [] |}.
+Example sf_opens_20 :
+  new_decoder_f sha256 D03 (firstn 20 (strm2 D03)) (hdr2 D03) 16384 = Ok (sf_state 20).
+Proof. vm_compute. reflexivity. Qed.
+Example sf_opens_50 :
+  new_decoder_f sha256 D03 (firstn 50 (strm2 D03)) (hdr2 D03) 16384 = Ok (sf_state 50).
+Proof. vm_compute. reflexivity. Qed.
+Example sf_opens_52 :
+  new_decoder_f sha256 D03 (strm2 D03) (hdr2 D03) 16384 = Ok (sf_state 52).
+Proof. vm_compute. reflexivity. Qed.
+Example sf_short_instance :
+  new_decoder_f sha256 D03 (firstn 7 (strm2 D03)) (hdr2 D03) 16384 = Err.
+Proof. apply C15_new_decoder_f_short_header. vm_compute. reflexivity. Qed.
+Example sf_bad_digest_instance :
+  new_decoder_f sha256 D03 (strm2 D03) (hdr2 D02) 16384 = Err.
+Proof. apply C15_new_decoder_f_bad_digest. vm_compute. reflexivity. Qed.
+Example sf_ok_instance :
+  new_decoder sha256 D03 (firstn 50 (strm2 D03)) (hdr2 D03) 16384 = Ok (sf_state 50) /\
+  d_next (sf_state 50) <> None.
+Proof.
+  destruct (C15_new_decoder_f_ok _ _ _ _ _ _ sf_opens_50) as (X1 & X2 & _).
+  split; [exact X1|exact X2].
+Qed.
+
+(* 1: a full record + proof is available in sf_state 50 (42 bytes >= 8 + 32),
+   not in sf_state 20 (12 bytes), nor after the first record of sf_state 50 *)
+Example sf_agrees_instance : read_f sha256 (sf_state 50) 5 = read sha256 (sf_state 50) 5.
+Proof. apply C15_read_f_agrees. right. right. vm_compute. discriminate. Qed.
+Example sf_starved_20 : starved (sf_state 20).
+Proof. split; [reflexivity|]. split; [discriminate|vm_compute; reflexivity]. Qed.
+Example sf_starved_instance :
+  read_f sha256 (sf_state 20) 5 = (drained (sf_state 20), [], RErr).
+Proof. exact (C15_read_f_starved sha256 _ 5 sf_starved_20). Qed.
+Example sf_starved_calls_instance :
+  read_all_calls_f sha256 (sf_state 20) [5; 5; 5] = [([], RErr); ([], RErr); ([], RErr)].
+Proof. exact (C15_starved_calls_f sha256 [5; 5; 5] _ sf_starved_20). Qed.
+
+(* 2 *)
+Example sf_never_eof_instance :
+  forall (fuel : nat) (cur all : list N) (out : bytes) (st : rstat),
+    read_trace_f sha256 fuel (sf_state 52) cur all [] = (out, st) -> st <> REOF.
+Proof.
+  intros fuel cur all out st T.
+  exact (C15_decoder_f_never_eof sha256 D03 _ _ _ _ fuel cur all [] out st sf_opens_52 T).
+Qed.
+
+(* 3: the complete stream, then a failure: [5;5;...] releases the first record
+   only, the clean end releases everything *)
+Example sf_trace_f_52 :
+  read_trace_f sha256 40 (sf_state 52) [5] [5] [] = (firstn 8 msg2, RErr).
+Proof. vm_compute. reflexivity. Qed.
+Example sf_trace_p_52 :
+  read_trace_p sha256 40 (sf_state 52) [5] [5] [] = (msg2, REOF).
+Proof. vm_compute. reflexivity. Qed.
+Example sf_prefix_instance : exists rest, msg2 = firstn 8 msg2 ++ rest.
+Proof. exact (proj1 (C15_read_trace_f_prefix sha256 _ _ _ _ _ _ _ _ _ sf_trace_f_52 sf_trace_p_52)). Qed.
+(* fuel runs out before the failure is met: the two histories coincide *)
+Example sf_trace_f_52_short :
+  read_trace_f sha256 3 (sf_state 52) [5] [5] [] = (firstn 8 msg2, ROk).
+Proof. vm_compute. reflexivity. Qed.
+Example sf_coincide_instance :
+  forall (outp : bytes) (stp : rstat),
+    read_trace_p sha256 3 (sf_state 52) [5] [5] [] = (outp, stp) ->
+    outp = firstn 8 msg2 /\ stp = ROk.
+Proof.
+  intros outp stp Tp.
+  apply (proj2 (C15_read_trace_f_prefix sha256 _ _ _ _ _ _ _ _ _ sf_trace_f_52_short Tp)).
+  discriminate.
+Qed.
+Example sf_committed_instance :
+  forall (fuel : nat) (cur all : list N) (out : bytes) (st : rstat),
+    read_trace_f sha256 fuel (sf_state 50) cur all [] = (out, st) ->
+    st <> REOF /\ ((exists rest, msg2 = out ++ rest) \/ Collision sha256).
+Proof.
+  intros fuel cur all out st T.
+  exact (C15_decoder_f_releases_only_committed sha256 D03 _ _ _ fuel cur all _ _ _ out st
+           hdr2_parses top2_commits sf_opens_50 T).
+Qed.
+Example sf_calls_52 :
+  read_all_calls_f sha256 (sf_state 52) [5; 5; 5; 5; 5]
+  = [(firstn 5 msg2, ROk); (firstn 3 (skipn 5 msg2), ROk); ([], RErr); ([], RErr); ([], RErr)].
+Proof. vm_compute. reflexivity. Qed.
+Example sf_calls_committed_instance :
+  forall (sizes : list N),
+    Forall (fun c => snd c <> REOF) (read_all_calls_f sha256 (sf_state 52) sizes) /\
+    ((exists rest, msg2 = List.concat (map fst (read_all_calls_f sha256 (sf_state 52) sizes)) ++ rest)
+     \/ Collision sha256).
+Proof.
+  intros sizes.
+  exact (C15_calls_f_only_committed sha256 D03 _ _ _ sizes _ _ _
+           hdr2_parses top2_commits sf_opens_52).
+Qed.
+
+(* 4: |stream| = 52, so 104 units of fuel are enough for any sizes >= 1 *)
+Example sf_reaches_error_instance :
+  snd (read_trace_f sha256 104 (sf_state 52) [3; 1] [2; 9] []) = RErr.
+Proof.
+  apply (C15_decoder_f_reaches_error sha256 D03 _ _ _ _ 104 [3; 1] [2; 9] [] sf_opens_52).
+  - discriminate.
+  - repeat constructor; discriminate.
+  - repeat constructor; discriminate.
+  - vm_compute. discriminate.
+Qed.
+Example sf_reaches_error_run :
+  read_trace_f sha256 104 (sf_state 52) [3; 1] [2; 9] [] = (firstn 8 msg2, RErr).
+Proof. vm_compute. reflexivity. Qed.
+
+(* the collision disjunct cannot be dropped: the weak hash accepts a forged
+   first record under the digest of another payload, failing source or not *)
+Example weak_hash_is_fooled_source_fault :
+  match new_decoder_f weakH D03 (stream weakH D03 4 [9; 9; 9; 9; 9])
+                      (digest_header weakH D03 4 [1; 2; 3; 4; 5]) 16 with
+  | Ok s0 => Some (read_trace_f weakH 20 s0 [8] [8] [])
+  | _ => None
+  end = Some ([9; 9; 9; 9], RErr).
+Proof. vm_compute. reflexivity. Qed.
+
+(* ---- further instances: the remaining theorems of this block --------------- *)
+Example sf_rnr_agrees_instance :
+  read_next_record_f sha256 (sf_state 50) top2 = read_next_record sha256 (sf_state 50) top2.
+Proof. apply C15_read_next_record_f_agrees. vm_compute. discriminate. Qed.
+Example sf_long_instance :
+  new_decoder_f sha256 D03 (firstn 50 (strm2 D03)) (hdr2 D03) 16384
+  = new_decoder sha256 D03 (firstn 50 (strm2 D03)) (hdr2 D03) 16384.
+Proof. apply C15_new_decoder_f_long. vm_compute. discriminate. Qed.
+(* the state after the first record of the stream cut at 50: 2 bytes left *)
+Definition sf_state_mid : dec :=
+  {| d_enc := D03; d_rs := 8; d_r := skipn 48 (firstn 50 (strm2 D03));
+     d_next := Some (firstn 32 (skipn 16 (strm2 D03))); d_out := [] |}.
+Example sf_step_50 : read_f sha256 (sf_state 50) 8 = (sf_state_mid, firstn 8 msg2, ROk).
+Proof. vm_compute. reflexivity. Qed.
+Example sf_step_never_eof_instance : ROk <> REOF /\ d_next sf_state_mid <> None.
+Proof.
+  apply (C15_read_f_never_eof sha256 (sf_state 50) 8 sf_state_mid (firstn 8 msg2) ROk); [discriminate|exact sf_step_50].
+Qed.
+Example sf_mid_starved : starved sf_state_mid.
+Proof. split; [reflexivity|]. split; [discriminate|vm_compute; reflexivity]. Qed.
+Example sf_trace_never_eof_instance :
+  forall (fuel : nat) (cur all : list N) (acc out : bytes) (st : rstat),
+    read_trace_f sha256 fuel sf_state_mid cur all acc = (out, st) -> st <> REOF.
+Proof.
+  intros fuel cur all acc out st T.
+  apply (C15_read_trace_f_never_eof sha256 fuel sf_state_mid cur all acc out st); [discriminate|exact T].
+Qed.
+Example sf_calls_never_eof_instance :
+  Forall (fun c => snd c <> REOF) (read_all_calls_f sha256 (sf_state 50) [8; 8; 8; 8]).
+Proof. apply C15_calls_f_never_eof. discriminate. Qed.
+Example sf_calls_prefix_run :
+  List.concat (map fst (read_all_calls sha256 (sf_state 52) [8; 8; 8; 8])) = msg2 /\
+  List.concat (map fst (read_all_calls_f sha256 (sf_state 52) [8; 8; 8; 8])) = firstn 8 msg2.
+Proof. vm_compute. split; reflexivity. Qed.
+Example sf_read_trace_52 :
+  read_trace sha256 (sf_state 52) (cyc_sizes 40 [5] [5]) [] = (msg2, REOF).
+Proof. vm_compute. reflexivity. Qed.
+Example sf_prefix_read_trace_instance : exists rest, msg2 = firstn 8 msg2 ++ rest.
+Proof.
+  exact (proj1 (C15_read_trace_f_prefix_read_trace sha256 _ _ _ _ _ _ _ _ _
+                  sf_trace_f_52 sf_read_trace_52)).
+Qed.
+Example sf_trace_is_calls_instance :
+  trace_of (read_all_calls_f sha256 (sf_state 52) (cyc_sizes 40 [5] [5])) []
+  = (firstn 8 msg2, RErr).
+Proof. rewrite <- C15_read_trace_f_is_calls_prefix. exact sf_trace_f_52. Qed.
+Example sf_norefill_instance :
+  snd (read_trace_f sha256 3 sf_state_mid [1; 1; 1] [] []) = RErr.
+Proof.
+  apply C15_read_trace_f_reaches_error_norefill.
+  - discriminate.
+  - repeat constructor; discriminate.
+  - vm_compute. discriminate.
+  - vm_compute. discriminate.
+Qed.
+Example sf_reaches_error_state_instance :
+  snd (read_trace_f sha256 90 (sf_state 52) [] [1] [7]) = RErr.
+Proof.
+  apply (C15_read_trace_f_reaches_error sha256 [1]).
+  - discriminate.
+  - repeat constructor; discriminate.
+  - discriminate.
+  - constructor.
+  - vm_compute. discriminate.
+Qed.
+
+(* the end-to-end statements need a hash with 32-byte well-formed output for
+   ALL inputs; a toy one (as in C14) *)
+Definition sfH (x : bytes) : bytes :=
+  be 32 (fold_left (fun a b => (a * 257 + b + 1) mod 2 ^ 256) x 7).
+Example sfH_len : forall x, List.length (sfH x) = 32%nat.
+Proof. intros x. apply be_length. Qed.
+Example sfH_wf : forall x, wfb (sfH x).
+Proof. intros x. apply be_wfb. Qed.
+Definition sfH_state : dec :=
+  {| d_enc := D02; d_rs := 8; d_r := skipn 8 (firstn 50 (stream sfH D02 8 msg2));
+     d_next := Some (digest sfH D02 8 msg2); d_out := [] |}.
+Example sfH_opens :
+  new_decoder_f sfH D02 (firstn 50 (stream sfH D02 8 msg2)) (digest_header sfH D02 8 msg2) 16384
+  = Ok sfH_state.
+Proof. vm_compute. reflexivity. Qed.
+Example sfH_run :
+  read_trace_f sfH 40 sfH_state [5] [5] [] = (firstn 8 msg2, RErr).
+Proof. vm_compute. reflexivity. Qed.
+Example sf_authentic_instance :
+  forall (fuel : nat) (cur all : list N) (out : bytes) (st : rstat),
+    read_trace_f sfH fuel sfH_state cur all [] = (out, st) ->
+    st <> REOF /\ ((exists rest, msg2 = out ++ rest) \/ Collision sfH).
+Proof.
+  intros fuel cur all out st T.
+  apply (C15_decoder_f_authentic sfH sfH_len sfH_wf D02 8 msg2 (firstn 50 (stream sfH D02 8 msg2)) 16384 fuel cur all sfH_state out st);
+    [discriminate|exact sfH_opens|exact T].
+Qed.
+Example sf_calls_authentic_instance :
+  forall (sizes : list N),
+    Forall (fun c => snd c <> REOF) (read_all_calls_f sfH sfH_state sizes) /\
+    ((exists rest, msg2 = List.concat (map fst (read_all_calls_f sfH sfH_state sizes)) ++ rest)
+     \/ Collision sfH).
+Proof.
+  intros sizes.
+  apply (C15_calls_f_authentic sfH sfH_len sfH_wf D02 8 msg2 (firstn 50 (stream sfH D02 8 msg2)) 16384 sizes sfH_state);
+    [discriminate|exact sfH_opens].
+Qed.
